@@ -1472,3 +1472,12 @@ package gojq
 //@   ensures len(path) == 0 && !(n is struct{}) && err == nil ==> forall k :: {r.([]any)[k]} 0 <= k && k < len(v) && k != ((i < 0) ? i + len(v) : i) ==> r.([]any)[k] == old(v[k])
 //@   ensures len(path) == 0 && !(n is struct{}) && err == nil ==> forall k :: {r.([]any)[k]} len(v) <= k && k < ((i < 0) ? i + len(v) : i) ==> r.([]any)[k] == nil
 //@   ensures len(path) == 0 && !(n is struct{}) && ((i < 0) ? i + len(v) : i) < 0 ==> err != nil
+
+// C14: index, rindex and indices on strings work on the arrays of code points of both strings, so the
+// positions they report are code-point positions (the array functions report positions in their arrays).
+//@ func indexFunc(name string, v, x any, f func(_, _ []any) any) (r any)
+//@   property C14
+//@   flag nosafety
+//@   modifies *
+//@   call f requires (v is string) ==> len(arg0) == rcount(v.(string)) && (forall k :: {arg0[k]} 0 <= k && k < len(arg0) ==> arg0[k] == runeAt(v.(string), k))
+//@   call f requires (v is string) ==> (x is string) && len(arg1) == rcount(x.(string)) && (forall k :: {arg1[k]} 0 <= k && k < len(arg1) ==> arg1[k] == runeAt(x.(string), k))
